@@ -1,25 +1,29 @@
 import Rare.Base.Proto
 import Rare.Model.C20
+import Rare.Model.C20Items
+import Rare.Spec.C20Screen
 /-!
 Line protocol of property C20.
 
 * `term <width> <trim 0|1> <history>` / `termx <width> <trim> <clear 0|1> <hide 0|1> <history>` –
-  the live `TermWriter`; a final `Close()` is always appended.  History = `,`-joined items
-  `<line>:<hex text>` or `c` (a `Close()` in the middle), `.` = empty.
-  Answer `ok b=<bytes written to stdout> rows=<rows 0..maxLine+1 of the screen> row=<cursor row> vis=<cursor visible>`.
-  `b` is the MODEL's byte string; `rows/row/vis` are the SPEC's answer (latest text per line, cursor
-  parked below, visible) whenever the history satisfies the hypotheses of `screen_refines_latest`,
-  and otherwise the reference terminal run on the model's bytes.
-* `trim <width> <auto 0|1> <hex text>` – `WriteLineNoWrap` alone: `ok <hex out> v=<visible runes> e=<ends inside an escape>`.
+  the live `TermWriter` on a screen tall enough that nothing scrolls (`maxLine + 3` rows, cursor on
+  row 0); a final `Close()` is always appended.  History = `,`-joined items `<line>:<hex text>` or
+  `c` (a `Close()` in the middle), `.` = empty.
+* `termh <width> <height> <row0> <trim> <history>` – the same on a screen of `height` rows with the
+  cursor starting on row `row0`: the block may grow beyond the bottom row and the screen scrolls.
+  Answer (all three) `ok b=<bytes written to stdout> rows=<rows of the screen> row=<cursor row> vis=<cursor visible>`.
+  `b` is the MODEL's byte string; `rows/row/vis` are the SPEC's answer (latest text per line that is
+  still on the screen, cursor parked below the last line, visible) whenever the history satisfies the
+  hypotheses of `screen_refines_latest` / `close_parks_cursor` (texts in the class `TextSafe` for the
+  cell-width table `eaWidth`, every update reachable), and otherwise the reference terminal `Scr`
+  run on the model's bytes.
+* `trim <width> <auto 0|1> <hex text>` – `WriteLineNoWrap` alone:
+  `ok <hex out> v=<visible runes> e=<ends inside an escape> c=<cells (eaWidth) of the visible runes>`.
 * `vterm <history>` – `VirtualTerm`: `ok n=<LineCount> closed=<0|1> lines=<hex list> g=<Get(-1)>,<Get(n)>,<Get(0)>` or `panic`.
 * `bterm <width> <trim> <history>` – `BufferedTerm` (final `Close()` appended): `ok b=<bytes> rows=<…> row=<…>` or `panic`.
 -/
 namespace Rare.Drv.C20
 open Rare Rare.C20 Rare.Proto
-
-inductive Item where
-  | w (line : Int) (text : Bytes)
-  | c
 
 def parseItem (s : String) : Option Item :=
   if s = "c" then some .c else
@@ -33,108 +37,89 @@ def parseItem (s : String) : Option Item :=
 def parseHist (s : String) : Option (List Item) :=
   if s = "." then some [] else (s.splitOn ",").mapM parseItem
 
-def writesOf : List Item → List (Int × Bytes)
+def writesOfItems : List Item → List (Int × Bytes)
   | [] => []
-  | .w l t :: r => (l, t) :: writesOf r
-  | .c :: r => writesOf r
+  | .w l t :: r => (l, t) :: writesOfItems r
+  | .c :: r => writesOfItems r
 
 def hasClose (h : List Item) : Bool := h.any fun | .c => true | _ => false
 
 def bit (s : String) : Option Bool := if s = "1" then some true else if s = "0" then some false else none
 
-/-- runes of a text the theorem speaks about: printable runes and `ESC [ digits/; m` only
+/-- the class `TextSafe` (for `cw = eaWidth`), decided on the decoded runes: printable runes of width
+one and `ESC [ digits : ; m`; an unterminated sequence at the very end only when `tailOK`
 (mode 0 = plain text, 1 = after ESC, 2 = inside the parameters) -/
-def textOK : Nat → List Rune → Bool
+def textSafe (tailOK : Bool) : Nat → List Rune → Bool
   | 0, [] => true
-  | _, [] => false
-  | 0, r :: rest => if r = 27 then textOK 1 rest else (decide (32 ≤ r) && decide (r ≠ 127)) && textOK 0 rest
-  | 1, r :: rest => decide (r = 91) && textOK 2 rest
-  | _, r :: rest => if r = 109 then textOK 0 rest else (decide (48 ≤ r) && decide (r ≤ 59)) && textOK 2 rest
-
-/-- does the rune string end inside an escape sequence (an ESC with no `m` after it)? -/
-def endsInEsc : Bool → List Rune → Bool
-  | b, [] => b
-  | false, r :: rest => endsInEsc (r = 27) rest
-  | true, r :: rest => endsInEsc (r ≠ 109) rest
+  | _, [] => tailOK
+  | 0, r :: rest =>
+    if r = 27 then textSafe tailOK 1 rest
+    else (decide (32 ≤ r) && decide (r ≠ 127) && decide (eaWidth r = 1)) && textSafe tailOK 0 rest
+  | 1, r :: rest => decide (r = 91) && textSafe tailOK 2 rest
+  | _, r :: rest => if r = 109 then textSafe tailOK 0 rest else (decide (48 ≤ r) && decide (r ≤ 59)) && textSafe tailOK 2 rest
 
 def b01 (b : Bool) : String := if b then "1" else "0"
 
-def rowsOut (t : Term) (n : Nat) : String :=
+def rowsOut (t : Scr) (n : Nat) : String :=
   hexList ((List.range n).map fun i => encodeUtf8 (t.rows i))
 
-/-- hypotheses of `screen_refines_latest`, decided on a concrete history -/
-def hypsHold (width : Int) (trim clear : Bool) (h : List Item) : Bool :=
-  let ws := writesOf h
-  !hasClose h && clear && decide (1 ≤ width) &&
-  ws.all fun (l, t) =>
-    decide (0 ≤ l) && textOK 0 (decodeUtf8 t) &&
-      (trim || (decide (((visibleRunes (decodeUtf8 t)).length : Int) ≤ width) && decide (encodeUtf8 (decodeUtf8 t) = t)))
+/-- `Reachable`, decided -/
+def reachable (H r0 : Nat) : Nat → List (Int × Bytes) → Bool
+  | _, [] => true
+  | m, (l, _) :: rest => decide (r0 + max m l.toNat - (H - 1) ≤ r0 + l.toNat) && reachable H r0 (max m l.toNat) rest
 
-def runItems (c : Cfg) : TermWriter → List Item → TermWriter × Bytes
-  | s, [] => (s, [])
-  | s, .w l t :: rest =>
-    let r1 := s.writeForLine c l t
-    let r2 := runItems c r1.1 rest
-    (r2.1, r1.2 ++ r2.2)
-  | s, .c :: rest =>
-    let r1 := s.close c
-    let r2 := runItems c r1.1 rest
-    (r2.1, r1.2 ++ r2.2)
+def textHyp (width : Int) (trim tailOK : Bool) (t : Bytes) : Bool :=
+  textSafe tailOK 0 (decodeUtf8 t) &&
+    (trim || (decide (((visibleRunes (decodeUtf8 t)).length : Int) ≤ width) && decide (encodeUtf8 (decodeUtf8 t) = t)))
 
-def termAnswer (width : Int) (trim clear hide : Bool) (h : List Item) : String :=
+/-- hypotheses of `screen_refines_latest` / `close_parks_cursor`, decided on a concrete history -/
+def hypsHold (width : Int) (H r0 : Nat) (trim clear : Bool) (h : List Item) : Bool :=
+  let ws := writesOfItems h
+  !hasClose h && clear && decide (1 ≤ width) && decide (r0 < H) &&
+  (ws.all fun (l, t) => decide (0 ≤ l) && textHyp width trim true t) && reachable H r0 0 ws
+
+def termAnswer (width : Int) (H? : Option Nat) (r0 : Nat) (trim clear hide : Bool) (h : List Item) : String :=
   let c : Cfg := { E := handEsc, autoTrim := trim, cols := width }
   let s0 : TermWriter := { TermWriter.new with clearLine := clear, hideCursor := hide }
   let r1 := runItems c s0 h
   let r2 := r1.1.close c
   let bytes := r1.2 ++ r2.2
-  let ws := writesOf h
+  let ws := writesOfItems h
   let ml := (maxLineOf ws).toNat
-  let height := ml + 3
-  let t := (Term.blank width.toNat height false).feedBytes bytes
-  let machine := s!"rows={rowsOut t (ml + 2)} row={t.row} vis={b01 t.cursorVisible}"
-  if hypsHold width trim clear h then
-    let specRows := (List.range (ml + 2)).map fun (i : Nat) =>
-      match latest ws (i : Int) with
+  let H := H?.getD (ml + 3)
+  let t := ({ Scr.blank width.toNat H false eaWidth with row := r0 }).feedBytes bytes
+  let machine := s!"rows={rowsOut t H} row={t.row} vis={b01 t.cursorVisible}"
+  if hypsHold width H r0 trim clear h then
+    let sf := r0 + ml + 1 - (H - 1)
+    let specRows := (List.range H).map fun (j : Nat) =>
+      if j + sf < r0 then [] else
+      match latest ws ((j + sf - r0 : Nat) : Int) with
       | some txt => encodeUtf8 (shown width.toNat trim txt)
       | none => []
-    let spec := s!"rows={hexList specRows} row={ml + 1} vis=1"
+    let spec := s!"rows={hexList specRows} row={r0 + ml + 1 - sf} vis=1"
     if spec = machine then s!"ok b={Hex.enc bytes} {spec}"
     else s!"ok b={Hex.enc bytes} {spec} MODEL-ON-MACHINE-DIFFERS {machine}"
   else s!"ok b={Hex.enc bytes} {machine}"
 
-def runV : VirtualTerm → List Item → Except String VirtualTerm
-  | v, [] => .ok v
-  | v, .w l t :: rest => do
-    let v' ← v.writeForLine l t
-    runV v' rest
-  | v, .c :: rest => runV v.close rest
-
-/-- BufferedTerm: a `c` item is `BufferedTerm.Close()` (prints the lines, then closes) -/
-def runB (c : Cfg) : VirtualTerm → List Item → Except String (VirtualTerm × Bytes)
-  | v, [] => .ok (v, [])
-  | v, .w l t :: rest => do
-    let v' ← v.writeForLine l t
-    runB c v' rest
-  | v, .c :: rest => do
-    let r1 := bufferedClose c v
-    let r2 ← runB c r1.1 rest
-    pure (r2.1, r1.2 ++ r2.2)
-
 def handle : List String → String
   | ["term", w, tr, hs] =>
     match w.toInt?, bit tr, parseHist hs with
-    | some width, some trim, some h => termAnswer width trim true true h
+    | some width, some trim, some h => termAnswer width none 0 trim true true h
     | _, _, _ => "bad-args"
   | ["termx", w, tr, cl, hd, hs] =>
     match w.toInt?, bit tr, bit cl, bit hd, parseHist hs with
-    | some width, some trim, some clear, some hide, some h => termAnswer width trim clear hide h
+    | some width, some trim, some clear, some hide, some h => termAnswer width none 0 trim clear hide h
+    | _, _, _, _, _ => "bad-args"
+  | ["termh", w, hh, r0, tr, hs] =>
+    match w.toInt?, hh.toNat?, r0.toNat?, bit tr, parseHist hs with
+    | some width, some H, some row0, some trim, some h => termAnswer width (some H) row0 trim true true h
     | _, _, _, _, _ => "bad-args"
   | ["trim", w, au, tx] =>
     match w.toInt?, bit au, Hex.dec tx with
     | some width, some auto, some text =>
       let out := writeLineNoWrap handEsc auto width text
       let rs := decodeUtf8 out
-      s!"ok {Hex.enc out} v={(visibleRunes rs).length} e={b01 (endsInEsc false rs)}"
+      s!"ok {Hex.enc out} v={(visibleRunes rs).length} e={b01 (endsInEsc false rs)} c={cellsOf eaWidth (visibleRunes rs)}"
     | _, _, _ => "bad-args"
   | ["vterm", hs] =>
     match parseHist hs with
@@ -153,12 +138,10 @@ def handle : List String → String
       | .error _ => "panic"
       | .ok (v, bytes) =>
         let n := v.lineCount
-        let t := (Term.blank width.toNat (n + 2) true).feedBytes bytes
+        let t := (Scr.blank width.toNat (n + 2) true eaWidth).feedBytes bytes
         let machine := s!"rows={rowsOut t (n + 1)} row={t.row}"
-        let ws := writesOf h
-        let hyp := !hasClose h && decide (1 ≤ width) && ws.all fun (l, t) =>
-          decide (0 ≤ l) && textOK 0 (decodeUtf8 t) &&
-            (trim || (decide (((visibleRunes (decodeUtf8 t)).length : Int) ≤ width) && decide (encodeUtf8 (decodeUtf8 t) = t)))
+        let ws := writesOfItems h
+        let hyp := !hasClose h && decide (1 ≤ width) && ws.all fun (l, t) => decide (0 ≤ l) && textHyp width trim false t
         if hyp then
           let specRows := (List.range (n + 1)).map fun (i : Nat) =>
             match latest ws (i : Int) with
